@@ -177,6 +177,16 @@ def run_component(om, errs, ex, raw, B, short=True):
     except errs.RequestError as e:
         obs['client_error'] = True
         obs['err'] = type(e).__name__
+        # a handler that catches the refusal and asks again gets the same answer: what is left in the stream is not a body
+        try:
+            obs['second_look'] = req.body.read()
+        except Horizon:
+            obs['hang'] = True
+        except errs.RequestError:
+            pass
+        except Exception as e2:   # noqa
+            obs['err'] = f'second access: {type(e2).__name__}: {e2}'
+            obs['client_error'] = False
     except Exception as e:   # noqa
         obs['err'] = f'{type(e).__name__}: {e}'
     obs['calls'] = list(stream.calls)
@@ -257,6 +267,9 @@ def judge(mode, obs, payload, fits, allowed=None):
         return 'hang', 'decoder exceeded the step horizon'
     if obs['err'] and not obs['client_error']:
         return 'server-fault', f'not a client error: {obs["err"]}'
+    if obs.get('second_look') is not None:
+        return 'accepted-on-second-access', (f'refused with {obs["err"]} at first; a second access to request.body then presented '
+                                             f'{obs["second_look"]!r} as the body')
     if mode == 'legal':
         if obs['client_error']:
             if fits:
